@@ -246,6 +246,11 @@ var solvers = []Solver{
 	{"z3-5.1.0-ematch", func(f string, to int) []string {
 		return []string{"z3-new", fmt.Sprintf("-T:%d", to), "smt.auto_config=false", "smt.mbqi=false", f}
 	}},
+	// the same without array extensionality (fewer inferences, so an unsat answer stays valid): nested maps make the
+	// extensionality skolems feed the "zero outside the key set" facts forever
+	{"z3-5.1.0-ematch-noext", func(f string, to int) []string {
+		return []string{"z3-new", fmt.Sprintf("-T:%d", to), "smt.auto_config=false", "smt.mbqi=false", "smt.array.extensional=false", f}
+	}},
 	{"cvc5-1.0.3", func(f string, to int) []string {
 		return []string{"cvc5", fmt.Sprintf("--tlimit=%d", to*1000), f}
 	}},
@@ -286,9 +291,20 @@ func runSolver(ctx context.Context, s Solver, file string, to int) solveOut {
 // Solve races the solvers; returns the first definite answer.
 func Solve(file string, timeout int, quickFirst bool) solveOut {
 	if quickFirst {
+		// two single-process attempts before the race (a race of five solvers per worker starves every one of them of CPU):
+		// the default configuration decides most obligations within 2 s, pure E-matching without array extensionality
+		// most of the rest
 		r := runSolver(context.Background(), solvers[0], file, min(2, timeout))
 		if r.answer == "sat" || r.answer == "unsat" {
 			return r
+		}
+		for _, s := range solvers {
+			if s.Name == "z3-5.1.0-ematch-noext" {
+				r := runSolver(context.Background(), s, file, min(4, timeout))
+				if r.answer == "unsat" {
+					return r
+				}
+			}
 		}
 	}
 	ctx, cancel := context.WithCancel(context.Background())
